@@ -32,10 +32,10 @@ theorem C14_history_is_observer (nss : List Nat) (ops : List Op) :
   runH_state _ _ _
 
 /-- An Open that reports eos delivers the whole result set at once and creates no context. -/
-theorem C14_open_single_shot (s : State) (k : Kind) (ns : Nat) (objs : List Obj) (max : Option Int)
-    (b : List Obj) (c : Option Nat) (h : (stepOpen s k ns objs max).2 = .batch b true c) :
-    b = objs ∧ (stepOpen s k ns objs max).1 = s := by
-  rcases stepOpen_cases s k ns objs max with ⟨e, he⟩ | ⟨_, he⟩ | ⟨_, he⟩ <;> rw [he] at h ⊢ <;> simp_all
+theorem C14_open_single_shot (s : State) (p : OpenParams) (k : Kind) (ns : Nat) (objs : List Obj) (max : Option Int)
+    (b : List Obj) (c : Option Nat) (h : (stepOpen s p k ns objs max).2 = .batch b true c) :
+    b = objs ∧ (stepOpen s p k ns objs max).1 = s := by
+  rcases stepOpen_cases s p k ns objs max with ⟨e, he⟩ | ⟨_, he⟩ | ⟨_, he⟩ <;> rw [he] at h ⊢ <;> simp_all
 
 /-- **Batch bound.** every Open / Pull response carries at most MaxObjectCount objects … -/
 theorem C14_batch_bound_pull (s : State) (k : Kind) (i : Nat) (m : Int) (hm : 0 ≤ m)
@@ -46,10 +46,10 @@ theorem C14_batch_bound_pull (s : State) (k : Kind) (i : Nat) (m : Int) (hm : 0 
   · simp at h; obtain ⟨rfl, _, _⟩ := h; simpa [effMax] using hle
   · simp at h; obtain ⟨rfl, _, _⟩ := h; simp [effMax, List.length_take]; omega
 
-theorem C14_batch_bound_open (s : State) (k : Kind) (ns : Nat) (objs : List Obj) (max : Option Int)
+theorem C14_batch_bound_open (s : State) (p : OpenParams) (k : Kind) (ns : Nat) (objs : List Obj) (max : Option Int)
     (b : List Obj) (eos : Bool) (c : Option Nat)
-    (h : (stepOpen s k ns objs max).2 = .batch b eos c) : b.length ≤ effMax max := by
-  rcases stepOpen_cases s k ns objs max with ⟨e, he⟩ | ⟨hle, he⟩ | ⟨_, he⟩ <;> rw [he] at h
+    (h : (stepOpen s p k ns objs max).2 = .batch b eos c) : b.length ≤ effMax max := by
+  rcases stepOpen_cases s p k ns objs max with ⟨e, he⟩ | ⟨hle, he⟩ | ⟨_, he⟩ <;> rw [he] at h
   · simp at h
   · simp at h; obtain ⟨rfl, _, _⟩ := h; exact hle
   · simp at h; obtain ⟨rfl, _, _⟩ := h; simp [List.length_take]; omega
@@ -144,9 +144,9 @@ theorem C14_gone_stays_gone (s : State) (ops : List Op) (i : Nat) (hi : i < s.ne
       intro j; unfold lookup; apply List.find?_eq_none.mpr
       intro y hy; have := hnone y (mem_remove.mp hy).1; simpa using this
     cases op with
-    | «open» k ns objs max =>
+    | «open» p k ns objs max =>
       simp only [step]
-      rcases stepOpen_cases s k ns objs max with ⟨e, he⟩ | ⟨_, he⟩ | ⟨_, he⟩ <;> rw [he]
+      rcases stepOpen_cases s p k ns objs max with ⟨e, he⟩ | ⟨_, he⟩ | ⟨_, he⟩ <;> rw [he]
       · exact ⟨h, hi⟩
       · exact ⟨h, hi⟩
       · refine ⟨?_, by simp [openedState]; omega⟩
@@ -248,10 +248,10 @@ theorem C14_sessions_independent (s : State) (k : Kind) (i : Nat) (max : Option 
     simp only [mem_remove]; exact ⟨fun h => h.1, fun h => ⟨h, hc⟩⟩
 
 /-- an Open never touches existing contexts and issues an id nobody holds -/
-theorem C14_open_fresh (s : State) (hs : Inv s) (k : Kind) (ns : Nat) (objs : List Obj) (max : Option Int)
-    (b : List Obj) (i : Nat) (h : (stepOpen s k ns objs max).2 = .batch b false (some i)) :
-    lookup s.ctxs i = none ∧ ∀ c ∈ s.ctxs, c ∈ (stepOpen s k ns objs max).1.ctxs := by
-  rcases stepOpen_cases s k ns objs max with ⟨e, he⟩ | ⟨_, he⟩ | ⟨_, he⟩ <;> rw [he] at h ⊢
+theorem C14_open_fresh (s : State) (hs : Inv s) (p : OpenParams) (k : Kind) (ns : Nat) (objs : List Obj) (max : Option Int)
+    (b : List Obj) (i : Nat) (h : (stepOpen s p k ns objs max).2 = .batch b false (some i)) :
+    lookup s.ctxs i = none ∧ ∀ c ∈ s.ctxs, c ∈ (stepOpen s p k ns objs max).1.ctxs := by
+  rcases stepOpen_cases s p k ns objs max with ⟨e, he⟩ | ⟨_, he⟩ | ⟨_, he⟩ <;> rw [he] at h ⊢
   · simp at h
   · simp at h
   · simp at h; obtain ⟨_, rfl⟩ := h
@@ -259,10 +259,75 @@ theorem C14_open_fresh (s : State) (hs : Inv s) (k : Kind) (ns : Nat) (objs : Li
     unfold lookup; apply List.find?_eq_none.mpr
     intro y hy; have := hs.below y hy; simp; omega
 
+
+/-! ### the optional session parameters (FilterQueryLanguage, FilterQuery, OperationTimeout, ContinueOnError) -/
+
+/-- **Parameters can only refuse.** Whatever optional parameters an Open carries, it either behaves
+    exactly like the Open without them or is refused with an error and changes nothing: the mock
+    applies no filter, so parameters never alter WHICH objects a session delivers. -/
+theorem C14_open_params_only_refuse (s : State) (p : OpenParams) (k : Kind) (ns : Nat) (objs : List Obj)
+    (max : Option Int) :
+    stepOpen s p k ns objs max = stepOpen s {} k ns objs max ∨
+    ∃ e, stepOpen s p k ns objs max = (s, .err e) := by
+  have hb0 : badTimeout ({} : OpenParams).timeout = false := rfl
+  have hpe : paramErr {} = none := by decide
+  unfold stepOpen
+  rw [hb0, hpe]
+  by_cases h1 : badMax max = true
+  · right; exact ⟨.valueError, by simp [h1]⟩
+  by_cases h1' : badTimeout p.timeout = true
+  · right; exact ⟨.valueError, by simp [h1']⟩
+  have h1f : badTimeout p.timeout = false := by simpa using h1'
+  rw [h1f]
+  by_cases h2 : s.disabled = true
+  · left; simp [h1, h2]
+  by_cases h3 : ns ∈ s.nss
+  · cases hp : paramErr p with
+    | some e => right; exact ⟨e, by simp [h1, h2, h3]⟩
+    | none => left; simp [h1, h2, h3]
+  · left; simp [h1, h2, h3]
+
+/-- a refused parameter set creates no context and delivers nothing, in every state -/
+theorem C14_bad_params_no_context (s : State) (p : OpenParams) (k : Kind) (ns : Nat) (objs : List Obj)
+    (max : Option Int) (h : (paramErr p).isSome = true ∨ badTimeout p.timeout = true) :
+    ∃ e, stepOpen s p k ns objs max = (s, .err e) := by
+  rcases stepOpen_cases s p k ns objs max with he | ⟨_, he⟩ | ⟨_, he⟩
+  · exact he
+  all_goals
+    exfalso
+    unfold stepOpen at he
+    rcases h with h | h
+    · cases hp : paramErr p with
+      | none => simp [hp] at h
+      | some e =>
+        by_cases h1 : (badMax max || badTimeout p.timeout) = true <;> simp only [h1, if_true] at he
+        · simp at he
+        by_cases h2 : s.disabled = true <;> simp only [h2, if_true] at he
+        · simp at he
+        by_cases h3 : (!(s.nss.contains ns)) = true <;> simp only [h3, if_true] at he
+        · simp at he
+        rw [hp] at he
+        simp at he
+    · simp [h] at he
+
+/-- which parameter sets the server accepts: exactly FilterQuery only together with a language, the
+    language `DMTF:FQL` if any, and OperationTimeout 0 or within 1 … OPEN_MAX_TIMEOUT -/
+theorem C14_params_accepted_iff (p : OpenParams) :
+    paramErr p = none ↔
+      ((p.fql.truthy = false → p.fqSet = false) ∧ (p.fql.truthy = true → p.fql = .dmtf) ∧
+       (∀ t, p.timeout = some t → t = 0 ∨ (0 ≤ t ∧ t ≤ (openMaxTimeout : Int)))) := by
+  unfold paramErr
+  cases hf : p.fql <;> cases hq : p.fqSet <;> cases ht : p.timeout <;> simp [Fql.truthy] <;> omega
+
+example : paramErr { fql := .dmtf, fqSet := true, timeout := some 40 } = none := by decide
+example : paramErr { fql := .other } = some (.cimError 14) := by decide
+example : paramErr { fqSet := true } = some (.cimError 4) := by decide
+example : paramErr { timeout := some 41 } = some (.cimError 4) := by decide
+
 /-! ### non-vacuity: a concrete interleaved history meets the hypotheses and exercises the claims -/
 
 def demoOps : List Op :=
-  [.open .paths 1 [10, 11, 12, 13, 14] (some 2), .open .insts 1 [20, 21, 22] (some 1),
+  [.open {} .paths 1 [10, 11, 12, 13, 14] (some 2), .open { fql := .dmtf, fqSet := true, timeout := some 40 } .insts 1 [20, 21, 22] (some 1),
    .pull .paths (some 0) (some 0), .pull .insts (some 0) (some 1), .pull .paths (some 0) (some 2),
    .pull .insts (some 1) none, .pull .paths (some 0) (some 5), .pull .paths (some 0) (some 1),
    .close (some 1)]
